@@ -327,6 +327,18 @@ func (s *session) QueryMachine() error {
 
 func (s *session) fetchAndWriteResults(statements string, parameters []*schema.NamedParam, resultColumnFormatCodes []int16, extQueryMode bool) error {
 	tag := commandTagFor(statements)
+	if s.txStatus == bm.TxStatusFailed {
+		// A statement failed inside an explicit transaction block and the
+		// engine cancelled the transaction. Until the client ends the block,
+		// nothing may be executed: it would run outside any transaction,
+		// be committed on its own and survive the client's ROLLBACK.
+		if (tag == "COMMIT" || tag == "ROLLBACK") && !rollbackToSavepointRe.MatchString(statements) {
+			s.txStatus = bm.TxStatusIdle
+			_, err := s.writeMessage(bm.CommandComplete([]byte("ROLLBACK")))
+			return err
+		}
+		return pserr.ErrInFailedSQLTransaction
+	}
 	// Track explicit transaction state so the next ReadyForQuery message
 	// reports the correct transaction-status byte. Clients (pq, JDBC)
 	// gate commit/rollback handling on this byte; staying at 'I' after a
@@ -335,7 +347,10 @@ func (s *session) fetchAndWriteResults(statements string, parameters []*schema.N
 	case "BEGIN":
 		s.txStatus = bm.TxStatusInTx
 	case "COMMIT", "ROLLBACK":
-		s.txStatus = bm.TxStatusIdle
+		// ROLLBACK TO SAVEPOINT does not end the block
+		if !rollbackToSavepointRe.MatchString(statements) {
+			s.txStatus = bm.TxStatusIdle
+		}
 	}
 	if s.isInBlackList(statements) {
 		_, err := s.writeMessage(bm.CommandComplete([]byte(tag)))
@@ -798,6 +813,9 @@ func maskStringLiterals(s string) (string, func(string) string) {
 
 var stringLiteralTokenRe = regexp.MustCompile("\x01(\\d+)\x01")
 
+// rollbackToSavepointRe tells ROLLBACK TO [SAVEPOINT] x (the block stays open) from a plain ROLLBACK.
+var rollbackToSavepointRe = regexp.MustCompile(`(?i)^\s*ROLLBACK\s+TO\b`)
+
 // commandTagRe extracts the leading SQL verb from a statement so we can
 // emit the standard Postgres CommandComplete tag (`BEGIN`, `COMMIT`,
 // `INSERT 0 0`, …) instead of the catch-all `ok`. Some clients (the pq
@@ -1193,6 +1211,12 @@ func (s *session) exec(st sql.SQLStmt, namedParams []*schema.NamedParam, resultC
 
 	ntx, _, err := s.db.SQLExecPrepared(s.ctx, tx, []sql.SQLStmt{st}, params)
 	s.tx = ntx
+
+	if err != nil && tx != nil && ntx == nil && s.txStatus == bm.TxStatusInTx {
+		// the engine cancels an explicit transaction when one of its
+		// statements fails: the block is aborted until COMMIT / ROLLBACK
+		s.txStatus = bm.TxStatusFailed
+	}
 
 	return err
 }
